@@ -450,3 +450,95 @@ pub fn replay(a: &HashMap<String, String>) -> i32 {
     write_lines(out, &evs);
     0
 }
+
+/// Concurrency stress (C04): `threads` workers of ONE tokenizer tokenize the same small set of
+/// sentences over and over, each on its own thread and in its own order, for `millis`
+/// milliseconds.  Every DISTINCT (sentence, result) pair a thread observes is logged once (the
+/// harness only de-duplicates; it does not judge), so a single wrong result among millions of
+/// tokenizations ends up in the trace, where the specification rejects it.
+pub fn stress(a: &HashMap<String, String>) -> i32 {
+    use std::collections::BTreeMap;
+    let seed: u64 = a.get("seed").and_then(|s| s.parse().ok()).unwrap_or(1);
+    let ndicts: usize = a.get("dicts").and_then(|s| s.parse().ok()).unwrap_or(6);
+    let threads: usize = a.get("threads").and_then(|s| s.parse().ok()).unwrap_or(8);
+    let millis: u64 = a.get("millis").and_then(|s| s.parse().ok()).unwrap_or(1500);
+    let out = a.get("out").expect("--out");
+    let mut rng = Rng::new(seed ^ 0x57E5);
+    let mut evs: Vec<Value> = vec![];
+    let mut iterations: u64 = 0;
+    for i in 0..ndicts {
+        // 6-11 connection ids per side, so that many different id pairs are looked up concurrently
+        let cfg = GenCfg { conn_kind: [1u8, 0, 2, 1, 2, 0][i % 6], max_ids: 12, ..Default::default() };
+        let d = gen_dict(&mut rng, &cfg);
+        // sentences: concatenations of up to three lexicon words / letters
+        let mut atoms: Vec<Vec<u32>> = d.lex.iter().map(|w| w.s.clone()).collect();
+        atoms.extend(LETTERS[..3].iter().map(|&c| vec![c]));
+        let mut sents: Vec<Vec<u32>> = vec![];
+        for _ in 0..40 {
+            let k = 1 + rng.below(3);
+            let mut s = vec![];
+            for _ in 0..k {
+                s.extend(rng.pick(&atoms).iter());
+            }
+            if !sents.contains(&s) {
+                sents.push(s);
+            }
+        }
+        let si = SessionIn { d: d.clone(), isp: false, mgl: 0, nw: threads, ops: vec![], lattice: false };
+        let mut head = vec![];
+        let tok = match open_session(&si, &mut head) {
+            Some(t) => t,
+            None => continue,
+        };
+        evs.extend(head);
+        let tok = &tok;
+        let sents = &sents;
+        let deadline = std::time::Instant::now() + std::time::Duration::from_millis(millis);
+        let mut results: Vec<(usize, BTreeMap<usize, Vec<String>>, u64, bool)> = vec![];
+        std::thread::scope(|sc| {
+            let mut hs = vec![];
+            for t in 0..threads {
+                hs.push(sc.spawn(move || {
+                    let mut seen: BTreeMap<usize, Vec<String>> = BTreeMap::new();
+                    let mut n = 0u64;
+                    let r = catch_unwind(AssertUnwindSafe(|| {
+                        let mut w = tok.new_worker();
+                        let mut k = t * 7;
+                        while std::time::Instant::now() < deadline {
+                            for _ in 0..50 {
+                                k = (k + 1 + t) % sents.len();
+                                w.reset_sentence(cps_to_string(&sents[k]));
+                                w.tokenize();
+                                let js = tokens_json(&w).to_string();
+                                let e = seen.entry(k).or_default();
+                                if !e.contains(&js) {
+                                    e.push(js);
+                                }
+                                n += 1;
+                            }
+                        }
+                    }));
+                    (t, seen, n, r.is_err())
+                }));
+            }
+            for h in hs {
+                results.push(h.join().unwrap());
+            }
+        });
+        for (t, seen, n, panicked) in results {
+            iterations += n;
+            for (k, outs) in seen {
+                for js in outs {
+                    evs.push(json!({"ev": "reset", "w": t + 1, "s": sents[k], "n": 0}));
+                    evs.push(json!({"ev": "tok", "w": t + 1, "toks": serde_json::from_str::<Value>(&js).unwrap()}));
+                }
+            }
+            if panicked {
+                evs.push(json!({"ev": "panic", "op": {"op": "tok", "w": t + 1}, "msg": "panic in a stress thread"}));
+            }
+        }
+    }
+    evs.push(json!({"ev": "stress_summary", "iterations": iterations}));
+    write_lines(out, &evs);
+    0
+}
